@@ -35,6 +35,77 @@ def _names(t):
     raise RegenError("%s: _check: handler type not understood: %s" % (REL, ast.dump(t)[:80]))
 
 
+SITE_FILES = ["mako/lexer.py", "mako/parsetree.py", "mako/codegen.py", "mako/pyparser.py", "mako/ast.py"]
+EXC_NAMES = ("SyntaxException", "CompileException")
+
+
+def _pos_source(call, fn):
+    """where the coordinates of the raised exception come from"""
+    params = set()
+    if fn is not None:
+        a = fn.args
+        params = {x.arg for x in a.posonlyargs + a.args + a.kwonlyargs}
+        if a.vararg:
+            params.add(a.vararg.arg)
+        if a.kwarg:
+            params.add(a.kwarg.arg)
+    self_name = fn.args.args[0].arg if fn is not None and fn.args.args else None
+
+    def owner(node):
+        # the Name at the root of an attribute / subscript chain
+        while isinstance(node, (ast.Attribute, ast.Subscript)):
+            node = node.value
+        return node.id if isinstance(node, ast.Name) else None
+
+    stars = [k.value for k in call.keywords if k.arg is None]
+    if stars:
+        v = stars[0]
+        if isinstance(v, ast.Dict):
+            inner = [x for k_, x in zip(v.keys, v.values) if k_ is None]
+            o = owner(inner[0]) if inner else None
+            return "self+override" if o in ("self", self_name) and self_name in ("self",) else "override:%s" % o
+        if isinstance(v, ast.Call):
+            return "adjusted"
+        o = owner(v)
+        if o == "self":
+            return "self"
+        if o in params:
+            return "param"
+        return "outer:%s" % o
+    named = {k.arg: k.value for k in call.keywords}
+    if "lineno" in named:
+        o = owner(named["lineno"])
+        return "param" if o in params and o != "self" else ("self" if o == "self" else "outer:%s" % o)
+    if len(call.args) >= 4:
+        return "explicit"
+    raise RegenError("raise site at line %d: coordinates not understood" % call.lineno)
+
+
+def raise_sites(repo):
+    sites = []
+    for rel in SITE_FILES:
+        tree = parse(repo, rel)
+
+        def walk(node, stack):
+            for ch in ast.iter_child_nodes(node):
+                st = stack + [ch] if isinstance(ch, (ast.FunctionDef, ast.AsyncFunctionDef, ast.ClassDef)) else stack
+                if isinstance(ch, ast.Raise) and isinstance(ch.exc, ast.Call):
+                    f = ch.exc.func
+                    name = f.attr if isinstance(f, ast.Attribute) else getattr(f, "id", None)
+                    if name in EXC_NAMES:
+                        a0 = ch.exc.args[0] if ch.exc.args else None
+                        consts = [n.value for n in ast.walk(a0) if isinstance(n, ast.Constant) and isinstance(n.value, str)] \
+                            if a0 is not None else []
+                        fns = [s for s in st if isinstance(s, (ast.FunctionDef, ast.AsyncFunctionDef))]
+                        sites.append((rel, ".".join(s.name for s in st), (consts or [""])[0][:32],
+                                      _pos_source(ch.exc, fns[-1] if fns else None)))
+                walk(ch, st)
+        walk(tree, [])
+    if not sites:
+        raise RegenError("no raise site found")
+    return sites
+
+
 @group("ErrPos")
 def gen(repo) -> str:
     tree = parse(repo, REL)
@@ -71,7 +142,17 @@ def gen(repo) -> str:
         # "every handler re-raises" would be vacuous - a broken tie, to be looked at, rather than a silent `true`
         raise RegenError("%s: _load has no except clause directly around the Template(...) construction "
                          "(shape not understood: cannot tell what happens to a compile error)" % REL)
-    out = [HEADER % REL, "\nnamespace MakoModel.Generated.ErrPos\n\n"]
+    sites = raise_sites(repo)
+    out = [HEADER % (REL + ", " + ", ".join(SITE_FILES)), "\nnamespace MakoModel.Generated.ErrPos\n\n"]
+    out.append("/-- every `raise exceptions.SyntaxException(...)` / `CompileException(...)` of " + ", ".join(SITE_FILES) + ":\n"
+               "    (file, enclosing function, first 32 characters of the message, where its coordinates come from).\n"
+               "    Coordinates: `self` = `self.exception_kwargs` / attributes of `self`; `param` = the exception_kwargs of a\n"
+               "    parameter of the function the raise is written in (the node being constructed / visited);\n"
+               "    `self+override`, `adjusted`, `explicit` = as named; `outer:<name>` = the exception_kwargs of a variable of an\n"
+               "    ENCLOSING function (some other node than the one the function is looking at). -/\n")
+    out.append("def raiseSites : List (String × String × String × String) := [\n")
+    out.append(",\n".join("  (%s, %s, %s, %s)" % tuple(lean_string(x) for x in s) for s in sites))
+    out.append("]\n\n")
     out.append("/-- exception classes the `except` clauses of `TemplateLookup._check` convert into\n"
                "    `TemplateLookupException` (a bare clause is listed as `BaseException`) -/\n")
     out.append("def checkConverts : List String := [%s]\n\n" % ", ".join(lean_string(x) for x in converting))
